@@ -134,6 +134,11 @@ func runRouting(c *Ctx) {
 		nodes := make([][]uint64, P)
 		for i := range nodes {
 			nodes[i] = []uint64{uint64(1 + i%3)}
+			// some partitions have lost every replica (the last hosting node was removed): the owner of an id is
+			// still that partition — the write fails, it is not stored somewhere else
+			if P > 1 && P <= 200 && i%5 == 3 {
+				nodes[i] = []uint64{}
+			}
 		}
 		ds, err := storage.VerifNewDataset(memDB(), 1, 2, pb.Space_Euclidean, 1, nodes)
 		if err != nil {
@@ -156,6 +161,9 @@ func runRouting(c *Ctx) {
 			idx := ds.VerifOwnerIndex(id)
 			c.Op("owner %s %d", hex.EncodeToString(id[:]), P)
 			c.Res("r %d", idx)
+			if want := int(utils.UuidMod(id, uint64(P))); idx != want {
+				c.Violate("C10", "C10/owner-depends-on-more-than-id-and-count", fmt.Sprintf("P=%d (partitions 3, 8, 13, ... have no replica left): id %s is routed to partition %d, (lo+hi) mod P = %d", P, id, idx, want), map[string]interface{}{"id": id.String(), "partitions": P})
+			}
 			if r.Intn(2) == 0 && len(batch) < 100 {
 				batch = append(batch, &pb.BatchItem{Id: id.Bytes()})
 				bids = append(bids, id)
